@@ -1,5 +1,7 @@
 pub mod c04;
 pub mod c05;
+pub mod c19;
+pub mod c20;
 
 use crate::case::Sink;
 use crate::Ctx;
@@ -7,6 +9,8 @@ use crate::Ctx;
 pub fn run(ctx: &Ctx, sink: &mut Sink) -> bool {
     match ctx.prop.as_str() {
         "C04" => c04::run_prop(ctx, sink),
+        "C19" => c19::run_prop(ctx, sink),
+        "C20" => c20::run_prop(ctx, sink),
         "C05" => c05::run_prop(ctx, sink),
         _ => return false,
     }
